@@ -19,6 +19,12 @@ def run(ctx):
     V.v4_parameter_translation(ctx)
     V.v6_derived_constructors(ctx)
     V.v7_zeroes(ctx)
+    V.v8_queries_do_not_mutate_constructor_state(ctx)
+    # products count through utils.compositions: its enumeration must be complete and within bounds
+    from ..engines import sizecheck as SC
+    SC.s0_compositions(ctx)
+    ctx.floor("S0", 4)
+    ctx.floor("V8", 1)
     ctx.floor("V7", 2)
     ctx.floor("V1", 14)
     ctx.floor("V2", 4)
